@@ -607,6 +607,10 @@ def sc_fc_radius(V, P, cfg):
         r = V.const(cfg["radius"])
     if rel and cfg.get("default_units"):
         m = pym.FilterConv(sig, domain=dom, radius=r, **kw)
+    elif cfg.get("radius_first") is not None:
+        # history on one object: built with another radius, then the public set_filter_radius(r) installs the final one
+        m = pym.FilterConv(sig, domain=dom, radius=V.const(cfg["radius_first"]), relative_units=rel, **kw)
+        m.set_filter_radius(r, relative_units=rel)
     else:
         m = pym.FilterConv(sig, domain=dom, radius=r, relative_units=rel, **kw)
     Wm = np.asarray(m.weights)
@@ -835,6 +839,13 @@ def items(tier):
                 bcs = dict(zip(SIDES[:2 * dim], combo))
                 add("fc-radius", "%s-r%s-%s" % (_tag(mesh), rad, _btag(bcs, dim)), mesh=mesh, radius=rad, bcs=bcs,
                     default_units=(t == 0))
+                if t == 1 and ri == 0:
+                    # set_filter_radius() on an existing filter: same kernel size (1.8 after 1.5: both 3 wide) ...
+                    add("fc-radius", "%s-r1.8-after-r1.5-%s" % (_tag(mesh), _btag(bcs, dim)), mesh=mesh, radius="1.8",
+                        radius_first="1.5", bcs=bcs)
+                    # ... and a different kernel size (known finding D30: the padding keeps the first kernel's size)
+                    add("fc-radius", "%s-r2.5-after-r1.5-%s" % (_tag(mesh), _btag(bcs, dim)), mesh=mesh, radius="2.5",
+                        radius_first="1.5", bcs=bcs, resize=True)
         # absolute units: every non-square squared distance is an algebraic constant s (s*s == q) and the cone weights
         # max(0, r - s) stay If-terms; the cost grows quickly with the number of such constants inside the radius
         for rad in (["1.5", "2.5"] if (q or dim == 2) else ["1.5"]) + ([] if (q or dim == 3) else ["0.4"]):
